@@ -14,7 +14,7 @@ PROP = "C20"
 
 TIERS = {
     # runs: number of seeds; budget_s: wall guard (no new run is issued after it)
-    "quick": {"runs": 3000, "budget_s": 150},
+    "quick": {"runs": 3000, "budget_s": 170},
     "thorough": {"runs": 120000, "budget_s": 1500},
 }
 
@@ -217,6 +217,7 @@ def make_replay_doc(plan: dict, script: list, v: dict, r: dict, batch: int, inde
         "batch_seed": batch,
         "run": index,
         "plan": plan,
+        "gen_seed": pool.GEN_SEED,
         "schedule": script,
         "violation": v,
         "digest": r["digest"],
@@ -428,6 +429,7 @@ class Agg:
                 "stub": ["scheduler (baton passing at trace events)", "threading.Lock/RLock seam",
                          "workload classes and callbacks (dst/c20/pool.py)"],
             },
+            "generated_class_graphs": pool.GEN_INFO,
             "aslr_off": boot.aslr_off,
             "harness_errors": len(self.harness_errors),
             "tree": boot.tree_fingerprint(),
